@@ -274,3 +274,7 @@ def Socket_readData (s : Sock) (maxlen : Int) : Sock × Bytes × Int :=
     (s, data, size)
 
 end QhttpGen.Sock
+
+/-- unfolds the functions the translation produced besides the interface functions (helpers introduced
+    by the C++: private methods, file-scope functions); the bridge proofs start with it -/
+macro "unfold_gen_helpers" : tactic => `(tactic| skip)
